@@ -38,6 +38,78 @@ CHECKS.update({
   note="One defect per generated section (two can cancel); reference parser for mutated real metadata.",
   ref="DESIGN.md §4 C13"),
 })
+CHECKS.update({
+ "C04": dict(
+  technique="model-based property testing (rapid): reference register VM vs paint captured at Rasterizer.Draw",
+  text="Generated programs biased to register traffic (selector wrap-around, ADJ after increments, blends from registers, gradients at every CBASE/NBASE/NSTOPS with valid or broken stops, LOD pairs at the raster height) are rendered directly and through Encoder+Decode; each path's paint must equal the reference VM's prescription and skipped paths must cause no rasteriser call.",
+  note="Reference VM written from the specification; paints snapshotted by value; gradient transform compared to 1e-6.",
+  ref="DESIGN.md §4 C04"),
+ "C05": dict(
+  technique="property-based testing (rapid) of the rasteriser call log against a float64 SVG path-semantics reference; exhaustive 16^3 verb triples",
+  text="Verb sequences over the 18 non-arc verbs with steering across the verb-transition matrix, under off-centre/non-square viewBoxes and arbitrary rectangles with non-uniform scale; call kinds and order must equal the reference and every coordinate lie within a calibrated float32 bound.",
+  note="Recording rasteriser with x/image/vector pen semantics; tolerance 16*eps32*M*(k+1).",
+  ref="DESIGN.md §4 C05"),
+ "C06": dict(
+  technique="property-based testing (rapid) with a constructive ellipse model and an independent SVG F.6.5 implementation",
+  text="Arcs are built from a known ellipse (centre, radii, rotation, start angle, extent) so that the emitted cubics can be checked point by point (on-ellipse, monotone parameter, extent, end points), incl. radii scale-up, zero/negative radii, relative form and non-uniform maps.",
+  note="Well-conditioned inputs only, as the property states (moderate magnitudes, distinct end points).",
+  ref="DESIGN.md §4 C06"),
+ "C07": dict(
+  technique="model-based testing (rapid) over action sequences through four pipelines",
+  text="Sequences of selector/register writes, read-backs, paths and Generator gradient helpers are driven through Generator->Renderer, Generator->Encoder and both through DestinationLogger; selectors are compared with the specification's machine after every step and the rasteriser log via bytes with the direct one at the end.",
+  note="Grid coordinates so geometry must match exactly; gradient numbers to the 30-bit form.",
+  ref="DESIGN.md §4 C07"),
+ "C08": dict(
+  technique="exhaustive enumeration (2^32 floats, 2^30 naturals, all decoder forms) through guarded hooks + rapid on the public paths",
+  text="Thorough tier enumerates every float32 bit pattern through the real/coordinate/zero-to-one/angle codecs and the quantiser, every natural below 2^30 and every 4-byte decoder payload; quick tier covers strided patterns plus complete neighbourhoods of every boundary. Public number paths are checked separately by reading the widths back from the bytes.",
+  note="Hooks are thin wrappers (tag verif). Zero-to-one minimality is not claimed by the property.",
+  ref="DESIGN.md §4 C08", ),
+ "C09": dict(
+  technique="exhaustive enumeration of colour byte patterns and blend triples against specification tables; rapid palettes",
+  text="All 1/2/3-byte colour patterns in every tier and all 2^32 four-byte patterns in the thorough tier are decoded through crafted SetCReg streams and compared with tables written from the spec; every RGBA value goes through Encoder.SetCReg and back; all 2^24 blend triples are resolved in several register contexts against the formula; generated suggested palettes round-trip through Reset.",
+  note="Colours compared with == against values built by the public constructors.",
+  ref="DESIGN.md §4 C09"),
+ "C10": dict(
+  technique="bounded-exhaustive enumeration of call histories against a 4-state specification automaton + rapid long histories",
+  text="All histories up to depth 5 (quick) / 7 (thorough) over a 12-letter alphabet of call classes, and random histories up to 300 calls, run on a zero-value Encoder and on the automaton: verdict, stickiness, decode-to-history and zero-value equivalence.",
+  note="The alphabet abstracts arguments, not call classes.",
+  ref="DESIGN.md §4 C10"),
+ "C14": dict(
+  technique="property-based testing (rapid): option-list model + reference VM on the sanitised palette",
+  text="Option lists mixing WithPalette and WithColorAt with every colour model and nonsensical values, on graphics that paint from palette indices directly, in blends, through CREG references and from untouched initial registers; Reset's palette and every path's paint are compared with the model.",
+  note="Where sanitising happens is not dictated; only the paint and Reset's valid entries.",
+  ref="DESIGN.md §4 C14"),
+ "C15": dict(
+  technique="property-based testing (rapid) with constructed exact hits and an interval oracle",
+  text="Gradients with dyadic matrices let pixels be placed exactly on stop offsets and integers; the reference paint is evaluated with an interval around the offset so discontinuities admit either side; checked at Gradient.At and end to end through the Renderer.",
+  note="Tolerance 1+2*slope*delta sixteen-bit units.",
+  ref="DESIGN.md §4 C15"),
+ "C16": dict(
+  technique="metamorphic property-based testing (rapid) on pixels rendered with raster/vec",
+  text="Four relations (offset inside a larger image, power-of-two scaling, colour indirection, compositing operator) are checked for exact pixel equality on generated graphics with all verbs, flat and gradient fills, RGBA and Alpha images, rectangles across the 512 px switch.",
+  note="Moderate coordinates so that x/image/vector is well behaved.",
+  ref="DESIGN.md §4 C16"),
+ "C17": dict(
+  technique="metamorphic property-based testing (rapid): reused object == fresh object",
+  text="Pairs of an arbitrary earlier history (erroneous, cut mid-path, all registers dirtied, mutated raw streams) and a later program relying on defaults: Encoder bytes, recording-rasteriser logs and pixels must equal those of fresh objects.",
+  note="Pixel comparison skipped (and counted) when coordinates exceed 20000 px.",
+  ref="DESIGN.md §4 C17"),
+ "C18": dict(
+  technique="randomised concurrent workloads under the Go race detector with serial-result and input-immutability oracles",
+  text="2-32 goroutines at GOMAXPROCS 2/4/16 run generated lists of independent pipelines over shared byte slices, a shared palette and the package-level defaults; any race report, result difference or modified shared input is a violation.",
+  note="Schedules are sampled, not enumerated; the race detector compensates on executed paths.",
+  ref="DESIGN.md §4 C18"),
+ "C19": dict(
+  technique="property-based testing (rapid): geometry read back from registers and rendered paint; exhaustive selector sweep",
+  text="The four helpers with non-degenerate geometry over five decades, stop lists 0-300, every prior selector value reached by plain or wrapping incrementing writes, into Renderer, Encoder or recorder: error rules, selector restoration, register layout, geometry and rendered stops.",
+  note="Tolerance 64*eps32*cond; exact pixel scale by construction.",
+  ref="DESIGN.md §4 C19"),
+ "C20": dict(
+  technique="grammar-based property testing (rapid) with the generating structure as oracle",
+  text="Path strings are rendered from a structured command list in every separator style each dialect allows; the structure interpreted by the property's rules is the expected op list for SetPathData, ParsePathData, ParsePath and ParseFile (generated SVG files).",
+  note="Strings stay inside the dialects exactly as delimited in the property.",
+  ref="DESIGN.md §4 C20"),
+})
 NOT_YET = {}
 
 def main():
@@ -82,6 +154,6 @@ def main():
         json.dump(m, f, indent=1)
         f.write("\n")
 
-HOOK_COMMITS = []
+HOOK_COMMITS = ["c77cf84"]
 if __name__ == "__main__":
     main()
